@@ -119,7 +119,7 @@ class Ctx:
         self.violation_total += 1
         self.viol_by_mech[mech] = self.viol_by_mech.get(mech, 0) + 1
         per = sum(1 for v in self.violations if v["mech"] == mech)
-        if len(self.violations) < self.MAX_VIOL and per < 8:
+        if per < 2 and len(self.violations) < 400:
             self.violations.append({"mech": mech, "what": what, "witness": witness})
 
     def inconc(self, reason, witness=None):
